@@ -16,7 +16,7 @@ RULE = ("two kinds of cases. plain (2 of 3): random histories of 3-60 operations
         "optionally one failing datastore call (commit/sync/query/has of the alternate slot, marker put, marker sync), a cancellation "
         "or a Close at a random gate, a put afterwards, Close; then a keystore is reopened on EVERY prefix of the journal and compared "
         "with the allowed sets. three fixed scenarios (same key put twice after phase B; failing marker write; cancellation during "
-        "opStart) are part of every run. distinct = distinct (kind, branch set, size class) signatures")
+        "opStart: the defects fixed by 47a8290, bdb3b1c, 83723a5) are part of every run. distinct = distinct (kind, branch set, size class) signatures")
 TRUSTED = [
     "the harness' in-memory datastore (insertion-ordered map + journal + sync points + fault injection + gates) and go-datastore's "
     "NaiveQueryApply prefix/limit semantics, namespace.Wrap key transform, BasicBatch-like atomic commit",
@@ -27,32 +27,18 @@ TRUSTED = [
     "testing/synctest scheduling and the translation of gated datastore calls into model events (harness/keystore/c20_test.go, c20Tr)",
 ]
 ASSUMPTIONS = [
-    "keys of one Put/Delete call are pairwise distinct, and no key is put twice between phase B of a reset and its final drain "
-    "(hypotheses keys_ok / ev_ok; without them the code miscounts: c20_put_duplicate_refuted, c20_reset_duplicate_size_refuted)",
-    "the marker write of a reset does not fail (otherwise c20_marker_write_fails_refuted) and the caller does not cancel while "
-    "opStart runs (otherwise c20_cancel_during_start_wedges_refuted)",
+    "keys are well formed (the identifier is a function of the key identity); a call may repeat a key",
+    "the in-memory swap of opCleanup is modelled together with the marker write (the code performs it after the marker Sync; "
+    "only the worker, which is inside handleResetOp, reads the swapped fields)",
     "shared-datastore mode only (WithDatastoreFactory is not modelled); concurrent operations during a reset are Puts",
     "query prefixes are at most 16 bits, compared on the leading 20 bits of the identifiers",
 ]
 
 
 def classify(desc, code):
-    """Stable key of a failing case that is one of the known findings of C20."""
-    kind = desc.get("kind")
-    if kind == "plain":
-        # Coq verdict 4: the first deviation from the set specification is at a Put/Delete naming a key twice
-        if code == 4:
-            return "seen-map-never-dedups"
-        return None
-    if kind == "reset" and code == 3:
-        hz = desc.get("hazard") or ""
-        fk = desc.get("oracle_fail") or ""
-        if hz == "marker-put-fail" and fk == "content":
-            return "reset-marker-write-fails"
-        if hz == "cancel-during-opstart" and fk == "wedged":
-            return "reset-cancel-during-opstart-wedges-worker"
-        if hz in ("dup-in-call", "dup-buffered") and fk == "size-only":
-            return "seen-map-never-dedups"
+    """No known findings: the three defects C20 found (dedup map keyed by a pointer, ignored
+    marker-write failure, cancellation during opStart) are fixed in /repo; their scenarios stay in
+    every run (reset cases 2, 5 and 8) and are reported as violations if they come back."""
     return None
 
 
@@ -63,9 +49,9 @@ LEVEL_TEXT = ("Theorems in coq/Props/C20.v hold for histories and interleavings 
               "Get/Count/ContainsPrefix are exact for short and long prefixes, Size is the cardinality, the persisted size is absent or exact "
               "at every crash point, acknowledged writes survive crashes; for the resettable keystore every crash point under every "
               "interleaving of concurrent Puts, aborts and Close reopens to the complete old or the complete new set with the acknowledged "
-              "puts and a matching size. Four statements are refuted by machine-checked witnesses and reproduced on the real code: "
-              "repeated keys in one call are counted twice, the same after phase B of a reset, a failing marker write loses the store, "
-              "cancellation during opStart blocks the worker forever.")
+              "puts and a matching size; any failing datastore call of the reset, including the marker write, leaves the complete old set; "
+              "the worker can always return to its idle loop. The three defects this check found (fixed in /repo: 47a8290, bdb3b1c, 83723a5) "
+              "stay as fixed scenarios in every run.")
 LEVEL_NOTE = ("Proof is about the Gallina models; the tie to the Go code is the correspondence run (differential testing, bounded by the "
               "generator) plus the Go-side oracle. Partial: failing marker Sync, failures inside the teardown and failing datastore calls of "
               "concurrent Puts during a reset are not modelled (oracle only); factory mode is not covered; continuing a history after a "
